@@ -2919,6 +2919,7 @@ static int scan_delim_string(struct scanner_s *scanner) {
                         /* test for a third delimiter character */
                         if (c == delim) {
                             scanner->next_char += 1;
+                            POSN_INCCOLUMN(scanner, 1);
                             return scan_triple_delim_string(scanner);
                         }
                     }
